@@ -149,7 +149,7 @@ def accepted_roots(t, rlib, deps, workdir):
 
 
 FORMS = ['add', 'sub', 'rem', 'adda', 'suba', 'rema', 'eq', 'lt', 'pcmp', 'ordmax', 'letbind', 'hypot', 'atan2', 'newf', 'getf', 'from',
-         'satadd', 'satsub', 'sum', 'fmtargs', 'fmtwith', 'floorf']
+         'satadd', 'satsub', 'sum', 'fmtargs', 'fmtwith', 'floorf', 'sumref', 'addref', 'subref', 'addaref']
 
 
 def probe_fn(name, form, a, b):
@@ -169,6 +169,7 @@ def probe_fn(name, form, a, b):
         'fmtwith': 'let _ = <%s>::format_args(%s, uom::fmt::DisplayStyle::Description).with(a); let _ = b;' % (A, ub),
         'floorf': 'let _ = a.floor::<%s>(); let _ = b;' % ub,
         'from': 'let _x: %s = a.into(); let _ = b;' % B,
+        'addref': 'let _ = a + &b;', 'subref': 'let _ = a - &b;', 'addaref': 'let mut a = a; a += &b;',
         'sqrt': 'let _ = a.sqrt(); let _ = b;', 'cbrt': 'let _ = a.cbrt(); let _ = b;', 'neg': 'let _ = -a; let _ = b;',
     }
     if form == 'ordmax':
@@ -177,6 +178,8 @@ def probe_fn(name, form, a, b):
         return 'pub fn %s(a: %s, b: %s) { let _ = uom::num::Saturating::saturating_add(a, b); }' % (name, Ai, Bi)
     if form == 'satsub':
         return 'pub fn %s(a: %s, b: %s) { let _ = uom::num::Saturating::saturating_sub(a, b); }' % (name, Ai, Bi)
+    if form == 'sumref':
+        return 'pub fn %s(a: %s, b: %s) { let v = [b]; let _: %s = v.iter().sum(); let _ = a; }' % (name, A, B, A)
     if form == 'sum':
         return 'pub fn %s(a: %s, b: %s) { let _: %s = [b].into_iter().sum(); let _ = a; }' % (name, A, B, A)
     return 'pub fn %s(a: %s, b: %s) { %s }' % (name, A, B, body[form])
